@@ -11,6 +11,7 @@ import SemantivaModel.Driver.C12
 import SemantivaModel.Driver.C13
 import SemantivaModel.Driver.C14
 import SemantivaModel.Driver.C15
+import SemantivaModel.Driver.C16
 import SemantivaModel.Driver.C17
 /-!
 `modeldriver`: one JSON object per line in, one per line out.
@@ -52,6 +53,8 @@ def dispatch (st : DState) (j : Json) : Except String (DState × Json) := do
     pure (st, ← C06.handle m j)
   else if m.startsWith "c15." then
     pure (st, ← C15.handle m j)
+  else if m.startsWith "c16." then
+    pure (st, ← C16.handle m j)
   else if m.startsWith "c17." then
     pure (st, ← C17.handle m j)
   else if m.startsWith "c09." then
